@@ -81,6 +81,9 @@ int main(int argc, char **argv)
   c14::register_narrow_mixed_a();
   c14::register_narrow_mixed_b();
   c14::register_strided_vec();
+  c14::register_strided_vec4();
+  c14::register_strided_dim();
   c14::register_strided_mat();
+  c14::register_strided_mat3();
   return vrt::run(argc, argv);
 }
